@@ -110,14 +110,13 @@ def handle (j : Json) : Except String Verdict := do
     match Spec.decodeAt rec_ k with
     | .ok lv =>
       let d := toD rec_ lv
-      if !dvalOpaque d then
-        match it.getObjVal? "ok" with
-        | .ok v => if !dvalMatches d v then specOk := false
-        | _ => specOk := false
+      match it.getObjVal? "ok" with
+      | .ok v => if !dvalMatches d v then specOk := false
+      | _ => specOk := false
     | .error _ => specOk := false
     -- … and the reader model must reproduce it
     match compareRead (modelRead Fixes.all fm final { ty := .any, idx := k }) it with
-    | .agree | .na _ => pure ()
+    | .agree => pure ()
     | .differ w => if agree then agree := false; why := s!"item {k}: {w}"
     k := k + 1
   if !specOk then
@@ -140,7 +139,7 @@ def handle (j : Json) : Except String Verdict := do
       k := 0
       for it in sliceTyped do
         match compareRead (modelRead Fixes.all fm final { ty := ty, idx := k }) it with
-        | .agree | .na _ => pure ()
+        | .agree => pure ()
         | .differ w =>
           return { agree := false, spec := [("C12", "pass")], sig := s!"C12/{label}-disagree/{backend}/{kind}", tags := tags,
                    why := s!"{label} item {k}: {w}" }
@@ -163,7 +162,7 @@ def handle (j : Json) : Except String Verdict := do
         return { agree := true, spec := [("C12", "fail"), ("C16", "pass")], sig := s!"C12/{label}-bulk/{backend}/{kind}", tags := tags,
                  why := s!"bulk {label} read of the slice (o={absO}, l={absL}) is not the window of the reads of the whole array" }
       match compareRead (modelRead Fixes.all fm final { ty := ty, idx := 0, bulk := true }) sliceBulk with
-      | .agree | .na _ => pure ()
+      | .agree => pure ()
       | .differ w =>
         return { agree := false, spec := [("C12", "pass")], sig := s!"C12/{label}-bulk-disagree/{backend}/{kind}", tags := tags,
                  why := s!"bulk {label}: {w}" }
